@@ -453,7 +453,8 @@ Definition run_set (tbl : list (string * string)) (objs probes : list (route * c
 (* ======================================================================================
    Extension 3: histories.  A heap of datasets driven by a sequence of API calls and user actions.
    [kids] records (parent address, address of the item of the parent's nested sequence): deepcopy
-   copies the nested item too (depth 1 is modelled), the alias shares it. *)
+   copies the nested item too (depth 1 is modelled), the alias shares it.  Nested items occupy heap
+   addresses but are only reached through their parent (OSetNestedMeaning) in the histories driven. *)
 Inductive op :=
 | OInit (v s m : string) (ver : option string)     (* CodedConcept(v, s, m, ver) *)
 | OFromCode (x : cref)                             (* CodedConcept.from_code *)
@@ -533,8 +534,20 @@ Definition step (srt : string -> option string) (st : state) (o : op) : state * 
   | OEq a b =>
       match nth_error h a, nth_error h b with
       | Some da, Some db =>
+          (* two concepts: CodedConcept.__eq__ (the nested sequence is not looked at); otherwise pydicom
+             compares every element, the nested item included *)
+          let nested_eq :=
+            match kid_of kids a, kid_of kids b with
+            | None, None => true
+            | Some ca, Some cb => match nth_error h ca, nth_error h cb with
+                                  | Some x, Some y => fields_eqb x y
+                                  | _, _ => false
+                                  end
+            | _, _ => false
+            end in
           (st, if Nat.eqb a b then (if d_cc da then vrb (obj_eq srt (HD da) (HD da)) else VB true)
-               else vrb (py_eq srt (as_pyval da) (as_pyval db)))
+               else if d_cc da && d_cc db then vrb (obj_eq srt (HD da) (HD db))
+               else vrb (bind (py_eq srt (as_pyval da) (as_pyval db)) (fun r => Ok (r && nested_eq))))
       | _, _ => (st, VErr "dangling")
       end
   end.
@@ -554,3 +567,27 @@ Definition run_history (tbl : list (string * string)) (ops : list op) : val :=
   let '((h, kids), vs) := run_ops (assoc tbl) ([], []) ops in
   VL [VL vs; VL (map vraw h);
       VL (map (fun a => vopt vnat (kid_of kids a)) (seq 0 (length h)))].
+
+(* ======================================================================================
+   Extension 4: a code item written with dcmwrite and read with dcmread.
+   DICOM pads string values with a trailing blank to even length and a reader removes trailing blanks:
+   every attribute comes back with its trailing blanks removed (values without backslash and NUL). The
+   item read is a plain Dataset; from_dataset makes it a concept again. *)
+Definition is_space (c : ascii) : bool := Ascii.eqb c " ".
+Fixpoint rstrip (s : string) : string :=
+  match s with
+  | EmptyString => EmptyString
+  | String c t => match rstrip t with
+                  | EmptyString => if is_space c then EmptyString else String c EmptyString
+                  | t' => String c t'
+                  end
+  end.
+Definition file_roundtrip (d : dsobj) : dsobj :=
+  DS (option_map rstrip (d_cv d)) (option_map rstrip (d_lcv d)) (option_map rstrip (d_urn d))
+     (option_map rstrip (d_meaning d)) (option_map rstrip (d_scheme d)) (option_map rstrip (d_version d)) false.
+(* CodedConcept.from_dataset(dcmread(dcmwrite(item CodedConcept(v, s, m, ver)))) *)
+Definition store_file_load (v s m : string) (ver : option string) : res dsobj :=
+  bind (init v s m ver) (fun d =>
+    bind (from_dataset [file_roundtrip d] (Addr 0%nat) true) (fun hr =>
+      match nth_error (fst hr) (snd hr) with Some d' => Ok d' | None => Err "dangling" end)).
+Definition run_store_file (v s m : string) (ver : option string) : val := vres vconcept (store_file_load v s m ver).
